@@ -905,6 +905,12 @@ async def _s_add_cb(ctx: Ctx, a: Actor, st: dict) -> Any:
     _add_raw_cb(ctx, conn, st["sid"], st["types"], st.get("behaviors", []))
 
 
+@step("conn.add_cb")
+async def _k_add_cb(ctx: Ctx, a: Actor, st: dict) -> Any:
+    """Subscribe on a raw connection object at any stage of its life (APIConnection.add_message_callback)."""
+    _add_raw_cb(ctx, ctx.conn_objs[st.get("k", "k0")], st["sid"], st["types"], st.get("behaviors", []))
+
+
 @step("add_cb_again")
 async def _s_add_cb_again(ctx: Ctx, a: Actor, st: dict) -> Any:
     conn = _cli(ctx, st)._get_connection()
